@@ -436,13 +436,22 @@ func runProperty(w *World, o *checkOpts) *Report {
 			fmt.Println("UNSTABLE", u)
 		}
 	}
-	// second chance: obligations that timed out while the machine was loaded are retried alone
+	// second chance: obligations that timed out while the machine was loaded are retried alone.  Only when few
+	// are undecided: a mass failure is not load, and retrying each of them serially with tripled time-outs would
+	// turn a failing check into an hour-long one.
+	undecided := 0
+	for _, j := range jobs {
+		ob := j.o
+		if !(ob.Cover || ob.Result.Status == "unsat" || ob.Result.Status == "sat" || ob.Kind == "effect") {
+			undecided++
+		}
+	}
 	for _, j := range jobs {
 		ob := j.o
 		if ob.Cover || ob.Result.Status == "unsat" || ob.Result.Status == "sat" || ob.Kind == "effect" {
 			continue
 		}
-		if o.fast {
+		if o.fast || undecided > 12 {
 			break
 		}
 		r2 := solve(ob.Result.File, quick*2, full*3, "unsat")
@@ -453,7 +462,7 @@ func runProperty(w *World, o *checkOpts) *Report {
 		}
 	}
 	// replay: candidate inputs of failed obligations are run against the real code
-	replays := 0
+	replays, weakened := 0, 0
 	seenInput := map[string]bool{}
 	searchDone := map[string]*ReplayResult{}
 	for _, j := range jobs {
@@ -461,9 +470,11 @@ func runProperty(w *World, o *checkOpts) *Report {
 		if ob.Cover || ob.Result.Status == "unsat" || ob.RawQuery != "" || o.fast || ob.Kind == "effect" || ob.Result.Solver == "table-audit" {
 			continue
 		}
-		if ob.Result.Model == nil {
+		if ob.Result.Model == nil && weakened < 8 {
+			weakened++
 			// no model (unknown/timeout): retry with quantified hypotheses dropped; any
 			// candidate is only believed if the replay confirms it on the real code
+			// (at most 8 such searches per run: the rest are reported with no-failing-input-found)
 			text := weaken(w.queryText(j.v, ob, 24))
 			file := writeQuery(qdir, ob.Name+".weak", text)
 			r2 := solveModel(file, full)
